@@ -24,22 +24,25 @@ CHECKS = {
  "C18": ("Truth-table oracles for normalized/sorted/at_age/at_lock_time/entails/minimum_n_keys/lift/check_timelocks/is_safe_nonmalleable over generated policies with constants, nesting and repeated atoms.", "property-based testing against own truth tables", "§3 C18"),
 }
 NOTE = "Bounded exploration, not proof. Trusts rustc, proptest, rust-bitcoin (sighash, script iteration, hashes), libsecp256k1 and the harness' own oracles (refscript self-tested on hand-built spends; mirror spec tables)."
+# libFuzzer campaigns appended to the thorough tier (coverage-guided search over the check's own
+# choice stream; raw-input targets where the property is about arbitrary text / bytes)
+FUZZ = {"C04": ["C04", "decode_script"], "C10": ["C10", "parse_all"], "C11": ["C11", "parse_all", "decode_script"]}
 def chk(pid, text, tech, ref):
     return {"property_id": pid,
      "quick_cmd": f"cd /verif/harness && cargo run --release --offline -q --bin check -- {pid} --tier quick",
-     "thorough_cmd": f"cd /verif/harness && cargo run --release --offline -q --bin check -- {pid} --tier thorough",
+     "thorough_cmd": f"cd /verif/harness && cargo run --release --offline -q --bin check -- {pid} --tier thorough" + "".join(f" && FUZZ_EVIDENCE_ID={pid} /verif/tools/fuzz_campaign.sh {t} 180 16" for t in FUZZ.get(pid, [pid])),
      "evidence_file": f"/verif/evidence/{pid}.json",
      "replay_cmd_template": f"cd /verif/harness && cargo run --release --offline -q --bin check -- {pid} --replay {{path}}",
      "engine": "mvh",
      "level_claimed": {"category": "exploration", "text": text, "design_ref": "DESIGN.md " + ref},
      "level_note": NOTE,
-     "technique": tech}
+     "technique": tech + "; thorough tier adds coverage-guided fuzzing (libFuzzer) of the same oracle"}
 ALL = ["C%02d" % i for i in range(1, 21)]
 m = {
  "version": 1,
  "setup_cmd": "cd /verif/harness && cargo build --release --offline --bin check",
  "hooks": {"guard": "miniscript_verif", "enable": "rustc --cfg miniscript_verif via /verif/harness/.cargo/config.toml build.rustflags (no hook is currently needed; the guard is reserved)", "baseline_off_cmd": "cd /repo && cargo test --workspace --no-fail-fast --offline", "source_commits": [], "add_only": True},
- "engines": [{"name": "mvh", "path": "/verif/harness", "serves_properties": sorted(CHECKS), "kind_free_text": "Rust harness: proptest-driven choice streams (shrinking, fixed seeds) over typed generators; oracles: independent reference Script interpreter with lazy witness search, mirror AST / spec type tables / encoder, own BIP32/341/380, policy truth tables"}],
+ "engines": [{"name": "mvh", "path": "/verif/harness", "serves_properties": sorted(CHECKS), "kind_free_text": "Rust harness + cargo-fuzz crate (/verif/fuzz): proptest-driven choice streams (shrinking, fixed seeds) over typed generators; oracles: independent reference Script interpreter with lazy witness search, mirror AST / spec type tables / encoder, own BIP32/341/380, policy truth tables"}],
  "checks": [chk(p, *CHECKS[p]) for p in sorted(CHECKS)],
  "not_applicable": [{"property_id": p, "reason": "not yet built in this session (planned; see DESIGN.md §3)"} for p in ALL if p not in CHECKS],
  "notes": "Every check exits 0 / 1 (VIOLATION line) / 2 (inconclusive or infrastructure). VERIF_SEED selects the proptest seeds; known findings live in /verif/known_findings.json."
